@@ -275,6 +275,12 @@ Build ==
            (IF e.fd_delta # 0 THEN {<<"C10", "file_descriptor_left_open">>} ELSE {}) \cup
            (IF e.tmp_delta # 0 THEN {<<"C10", "temporary_file_left_behind">>} ELSE {}) \cup
            (IF e.res.c = "Panic" /\ (faulted \/ ~e.tmp_usable \/ mapfull) THEN {<<"C10", "panic_under_fault">>} ELSE {}) \cup
+           \* the faulty attempt was rolled back inside the harness (nested transaction) and THE SAME builder value built
+           \* again with the fault withdrawn: this event is that second attempt
+           (IF "retry_first" \in DOMAIN e
+            THEN (IF e.retry_first \notin {"Cancelled", "Ok"} THEN {<<"C10", "cancelled_build_returned_" \o e.retry_first>>} ELSE {})
+                 \cup (IF e.res.c # "Ok" THEN {<<"C10", "retry_with_the_same_builder_returned_" \o e.res.c>>} ELSE {})
+            ELSE {}) \cup
            (IF ~e.tmp_usable /\ n > cap /\ e.res.c # "Io" /\ ~(faulted /\ e.res.c = "Cancelled")
             THEN {<<"C10", "unusable_temp_dir_gave_" \o e.res.c>>} ELSE {}) \cup
            (IF e.res.c = "Io" /\ ~e.tmp_usable THEN {}
